@@ -1092,6 +1092,25 @@ LINK_WITNESS_OPS = [   # a dependency reached through a symbolic link: the targe
 ]
 
 
+UPATH_WITNESS_OPS = [   # one file as pathlib.Path and as UPath("file://…"); a twin with equal bytes; touch; edit (honest clock)
+    {"op": "write", "f": 0, "content": [118, 49], "mtime_ns": 1_600_000_000 * NS},
+    {"op": "state", "f": 0, "kind": "path", "sp": 0},
+    {"op": "state", "f": 0, "kind": "upath", "sp": 0},
+    {"op": "write", "f": 1, "content": [118, 49], "mtime_ns": 1_600_000_040 * NS},      # another file, the same bytes
+    {"op": "state", "f": 1, "kind": "upath", "sp": 1},
+    {"op": "utime", "f": 0, "mtime_ns": 1_600_000_100 * NS},                            # touch only
+    {"op": "state", "f": 0, "kind": "upath", "sp": 0},
+    {"op": "state", "f": 0, "kind": "pickle", "sp": 3},
+    {"op": "write", "f": 0, "content": [118, 50], "mtime_ns": 1_600_000_200 * NS},      # real edit
+    {"op": "state", "f": 0, "kind": "upath", "sp": 2},
+    {"op": "state", "f": 0, "kind": "path", "sp": 1},
+    {"op": "write", "f": 2, "content": {"gen": [256 * 1024 + 1, 5], "patch": []}, "mtime_ns": 1_600_000_300 * NS},
+    {"op": "state", "f": 2, "kind": "upath", "sp": 0},
+    {"op": "write", "f": 2, "content": {"gen": [256 * 1024 + 1, 5], "patch": [[0, 1]]}, "mtime_ns": 1_600_000_400 * NS},
+    {"op": "state", "f": 2, "kind": "upath", "sp": 0},
+]
+
+
 def gen_ops(rng, nops: int, honest: bool, links: bool = False):
     """Random histories over 3 files (and, with links=True, 2 symbolic links to them).
     honest=True: every write gets a fresh mtime (monotone clock)."""
@@ -1132,7 +1151,7 @@ def gen_ops(rng, nops: int, honest: bool, links: bool = False):
             ops.append({"op": "remove", "f": f})
             alive.pop(f, None)
         else:
-            ops.append({"op": "state", "f": f, "kind": rng.choice(["path", "path", "pickle", "task"]), "sp": rng.randrange(4)})
+            ops.append({"op": "state", "f": f, "kind": rng.choice(["path", "path", "pickle", "task", "upath", "upath"]), "sp": rng.randrange(4)})
     for f in list(alive):
         ops.append({"op": "state", "f": f, "kind": "path", "sp": rng.randrange(4)})
     for k, f in link_to.items():
@@ -1183,11 +1202,12 @@ def check_ops(ctx, ops, obs, seq_id):
             stale = [h for h in history if h[0] == ob["path"] and h[1] == ob["mtime"] and h[2] != content and h[3] == st]
             fid = "F4" if stale else None
             if content in seen_by_content and seen_by_content[content] != st:
-                ctx.violation(f"state-content: the same {len(content)} bytes got two different states (path spelling {op['sp']}{' through a symlink' if op.get('l') is not None else ''}, mtime {mtimes.get(fidx)})",
+                ctx.violation(f"state-content: the same {len(content)} bytes got two different states (path spelling {op['sp']}{' through a symlink' if op.get('l') is not None else ''}{' as UPath(file://…)' if op.get('kind') == 'upath' else ''}, mtime {mtimes.get(fidx)})",
                               replay, finding=fid)
             elif st in seen_by_state and seen_by_state[st] != content:
                 ctx.violation("state-sep: different bytes, same state" + (" (bytes changed under an identical path and mtime)" if stale else "")
-                              + (" (file named through a symlink)" if op.get("l") is not None else ""),
+                              + (" (file named through a symlink)" if op.get("l") is not None else "")
+                              + (" (file named by a UPath(file://…))" if op.get("kind") == "upath" else ""),
                               replay, finding=fid)
             else:
                 seen_by_content.setdefault(content, st)
@@ -1227,6 +1247,8 @@ def stream_states(ctx):
     for chunk in (sizes[0::2], sizes[1::2]):     # two processes
         seqs.append(gen_big_ops(ctx.rng, chunk, 5 if not ctx.thorough else 9))
     big_to = len(seqs)
+    seqs.append(list(UPATH_WITNESS_OPS))
+    big_to = len(seqs)          # (honest, and contains a large file: judged like the large-file histories)
     seqs.append(list(LINK_WITNESS_OPS))
     for i in range(max(2, nseq // 2)):      # the same histories with files also named through symbolic links
         seqs.append(gen_ops(ctx.rng, ctx.rng.randint(16, 44), honest=(i % 2 == 0), links=True))
@@ -1242,6 +1264,7 @@ def stream_states(ctx):
         ctx.dist["state_observations"] += len(annotated)
         if big_from <= i < big_to:
             ctx.dist["state_observations_large_files"] += len(annotated)
+        ctx.dist["state_observations_upath"] += sum(1 for op, _, _ in annotated if op.get("kind") == "upath")
         ctx.dist["state_observations_through_symlink"] += sum(1 for op, _, _ in annotated if op.get("l") is not None)
         if 1 <= i <= nseq and (i - 1) % 2 == 0 or big_from <= i < big_to or i > big_to and (i - big_to - 1) % 2 == 0:
             ctx.dist["state_honest_sequences"] += 1
